@@ -35,7 +35,12 @@ def gen_case(case, formats=FORMATS, prop=ID):
     srcs = []
     mode = r.random()
     meta = {"mode": None}
-    if mode < 0.22:
+    if mode < 0.06:
+        meta["mode"] = "same-body-other-viewbox"
+        srcs.extend(svggen.same_body_other_viewbox_set(r, r.randint(2, 4), pal=pal))
+        if cfg.get("reuse_tolerance", 0.1) in (-1, 0.0) and r.random() < 0.7:
+            cfg["reuse_tolerance"] = 0.1
+    elif mode < 0.22:
         meta["mode"] = "grid-recurrence"
         svgs, gcfg, m = svggen.grid_recurrence_set(r, r.randint(2, 3), pal=pal)
         meta["transforms"] = m["transforms"]
